@@ -70,6 +70,9 @@ def program(rng, family=None):
         meta = {"be": be, "n": n, "family": "dft_bign", "class": cls, "dc": 0, "step": 1, "off": 0, "rs": 1, "asz": 1}
         return f"be={be} n={n} ; " + " ; ".join(st), meta
     cls = rng.choice(["random", "random", "random", "max", "min", "alt", "sparse", "zero"])
+    if fam in ("dft_roundtrip", "dft_select", "dft_arith", "dft_assign", "svp", "svp_dft", "setsize") and rng.chance(1, 6):
+        # tiny rings: the SIMD kernels have no full vector pass there and fall back (or must fall back) to scalar code
+        n = rng.choice([2, 4] if be.startswith("fft64") else [1, 2, 4])
     st = []
     meta = {"be": be, "n": n, "family": fam, "class": cls}
     rc = rng.range(1, 3)              # result columns
